@@ -28,7 +28,32 @@ Conventions (= trusted base of this translator):
                   the final `self._expandAsymmetricUnit(block)` / `return` (recorded in `parseSymops_tail`)
 Anything else makes the translator emit `def parseSymops_untranslatable : String`, so the tie theorem cannot be stated.
 
-`_expandAsymmetricUnit` is recorded as normalised statement text (`expandAsymmetricUnit_body`), compared verbatim.
+`_parseCifBlock` is recorded as normalised statement text (`parseCifBlock_body`), compared verbatim.
+
+`P_cif._expandAsymmetricUnit`  ->  `Src.CifSym.expandAsymmetricUnit` (+ the loop bodies `expandAsymmetricUnit_decide`, `_image`, `_site`), over
+the vocabulary `Src.CifSym.X` that this translator writes at the top of the generated file (fixed text `X_PRELUDE` below).  Conventions:
+
+  atoms           an `Atom` is the record `X.PAtom P T O R` of the VALUES of `label`, `element`, `occupancy`, `xyz`, `anisotropy`, `U` plus
+                  an opaque `rest` (everything else `Atom(ca)` copies); `Atom(x)` -> `x` (a copy of a value is the value; the atoms of
+                  `self.stru` are distinct objects, the copy shares nothing).  `x.xyz = e`, `x.label = e`, `x.label += e` are record
+                  updates; the two property setters with behaviour of their own are parameters: `x.anisotropy = e` -> `ops.setAnisotropy e x`,
+                  `x.U = e` -> `ops.setU e x` (`X.AtomOps`; their source is C09's subject, `DS.Props.SrcAtom`)
+  self            `self : X.XState` with `stru` (list of atoms) and `anisotropy` (the dictionary label -> bool as an association list in
+                  insertion order: `k not in d` -> `!(X.dictHas d k)`, `d[k] = v` -> `X.dictSet d k v`)
+  eau             `self.eau = ExpandAsymmetricUnit(self.spacegroup, corepos, coreUijs, eps=self.eps)` with exactly these arguments ->
+                  `let eau ← mkEau v_corepos v_coreUijs` (`mkEau` stands for the constructor at the parser's space group and eps; may
+                  raise); afterwards `self.eau.multiplicity / expandedpos / expandedUijs / Uisotropy` are the fields of `X.Eau P T`;
+                  `ExpandAsymmetricUnit` must be bound by the import statement at the top of the method, `Atom` by the module's
+                  `from diffpy.structure import Atom …`, the builtins `zip enumerate range sum str` nowhere in the module
+  types           N natural number (loop indices of `enumerate`/`range`, literals, `+`), S string (`+` = `++`, `str(n)` = `toString n`),
+                  B bool (`not`, comparisons of N by `decide`, truth value of a B), P position, T tensor, A atom, lists of those
+  indexing        `l[n]` with `n : N` -> `← X.pyIdx l n` (`IndexError` past the end; the indices are never negative)
+  statements      the two list comprehensions `[a.f for a in self.stru]` -> `map`; `for ca, u in zip(self.stru, self.eau.Uisotropy)` whose
+                  body assigns only attributes of `ca` and entries of `self.anisotropy` and cannot raise -> `X.forZipMut` (atoms past the
+                  shorter list untouched); `for i, ca in enumerate(self.stru)` with body `eca = []`, `for j in range(<N>)` …
+                  `eca.append(a)`, `newatoms.append(eca)` -> two `foldlM` over `X.enumerate` / `List.range`; `if c:` without `else`
+                  (assigned variables returned by the branch); `self.stru[:] = sum(newatoms, [])` -> `List.flatten`; final `return`
+Anything else -> `def expandAsymmetricUnit_untranslatable : String`.
 """
 import ast
 import os
@@ -436,6 +461,439 @@ def translate_method(cls, tree):
     return tr.lines, tr.tail
 
 
+# ------------------------------------------------------------------------------------------------
+# _expandAsymmetricUnit
+
+X_PRELUDE = """/-! vocabulary of the transliteration of `P_cif._expandAsymmetricUnit` (fixed text of translate/src_cifsym.py) -/
+namespace X
+
+/-- the values `Atom(ca)` copies: the six attributes the method looks at, everything else in `rest` -/
+structure PAtom (P T O R : Type) where
+  label : String
+  element : String
+  occupancy : O
+  xyz : P
+  anisotropy : Bool
+  U : T
+  rest : R
+
+/-- the two property setters of `Atom` with behaviour of their own (`atom.py`; C09) -/
+structure AtomOps (P T O R : Type) where
+  /-- `a.anisotropy = b` -/
+  setAnisotropy : Bool → PAtom P T O R → PAtom P T O R
+  /-- `a.U = v` -/
+  setU : T → PAtom P T O R → PAtom P T O R
+
+/-- the attributes of an `ExpandAsymmetricUnit` object the method reads -/
+structure Eau (P T : Type) where
+  multiplicity : List Nat
+  expandedpos : List (List P)
+  expandedUijs : List (List T)
+  Uisotropy : List Bool
+
+/-- `self.anisotropy`: label -> bool, insertion order -/
+abbrev Dict := List (String × Bool)
+
+/-- `k in d` -/
+def dictHas (d : Dict) (k : String) : Bool := d.any (fun p => p.1 == k)
+
+/-- `d.get(k)` -/
+def dictGet (d : Dict) (k : String) : Option Bool := (d.find? (fun p => p.1 == k)).map (·.2)
+
+/-- `d[k] = v` -/
+def dictSet (d : Dict) (k : String) (v : Bool) : Dict :=
+  if dictHas d k then d.map (fun p => if p.1 == k then (k, v) else p) else d ++ [(k, v)]
+
+/-- the attributes of the parser object the method reads or writes -/
+structure XState (P T O R : Type) where
+  stru : List (PAtom P T O R)
+  anisotropy : Dict
+
+/-- `l[n]` for `n ≥ 0`: `IndexError` past the end -/
+def pyIdx {A : Type} (l : List A) (n : Nat) : Except Exn A :=
+  match l[n]? with
+  | some x => pure x
+  | none => .error Exn.indexError
+
+def enumerateFrom {A : Type} : Nat → List A → List (Nat × A)
+  | _, [] => []
+  | n, a :: as => (n, a) :: enumerateFrom (n + 1) as
+
+/-- `enumerate(l)` -/
+def enumerate {A : Type} (l : List A) : List (Nat × A) := enumerateFrom 0 l
+
+/-- `for a, b in zip(L, bs): <body>` where the body changes attributes of the object `a` and a state `s` only, and cannot raise:
+the list afterwards (objects past the shorter list untouched) and the state -/
+def forZipMut {A B S : Type} (body : S → A → B → A × S) : S → List A → List B → List A × S
+  | s, a :: as, b :: bs =>
+    let r := body s a b
+    let t := forZipMut body r.2 as bs
+    (r.1 :: t.1, t.2)
+  | s, as, _ => (as, s)
+
+end X
+
+"""
+
+XA_ATTRS = {"label": "S", "element": "S", "xyz": "P", "anisotropy": "B", "U": "T"}
+XEAU = {"multiplicity": "LN", "expandedpos": "LLP", "expandedUijs": "LLT", "Uisotropy": "LB"}
+XELEM = {"LN": "N", "LLP": "LP", "LLT": "LT", "LP": "P", "LT": "T", "LB": "B", "LA": "A", "LLA": "LA"}
+XLEAN = {"N": "Nat", "S": "String", "B": "Bool", "P": "P", "T": "T", "A": "X.PAtom P T O R"}
+XBUILTINS = ("zip", "enumerate", "range", "sum", "str")
+XCMP = {ast.Gt: ">", ast.Lt: "<", ast.GtE: "≥", ast.LtE: "≤", ast.Eq: "=", ast.NotEq: "≠"}
+
+
+def xlean_type(t):
+    if t.startswith("L"):
+        return "List (%s)" % xlean_type(t[1:])
+    return XLEAN[t]
+
+
+class XBlk:
+    """statements of one body: lines plus whether any of them can raise (monadic binding)"""
+
+    def __init__(self, env, eau_ok, ind):
+        self.env = dict(env)       # python local name -> type
+        self.eau_ok = eau_ok       # self.eau assigned
+        self.lines = []
+        self.monadic = False
+        self.ind = ind
+        self.tmp = [0]
+
+    def emit(self, s):
+        self.lines.append("  " * self.ind + s)
+
+    def fresh(self):
+        self.tmp[0] += 1
+        return "t%d" % self.tmp[0]
+
+    def sub(self, extra=0):
+        b = XBlk(self.env, self.eau_ok, self.ind + extra)
+        b.tmp = self.tmp
+        return b
+
+    # ---- expressions -> (lean, type); index operations are bound first (`let t ← X.pyIdx …`)
+    def expr(self, e):
+        if isinstance(e, ast.Constant):
+            if isinstance(e.value, bool) or e.value is None:
+                raise U("constant %r" % (e.value,))
+            if isinstance(e.value, int) and e.value >= 0:
+                return "%d" % e.value, "N"
+            if isinstance(e.value, str):
+                return lstr(e.value), "S"
+            raise U("constant %r" % (e.value,))
+        if isinstance(e, ast.Name) and isinstance(e.ctx, ast.Load):
+            if e.id in self.env:
+                return "v_" + e.id, self.env[e.id]
+            raise U("unknown name %s" % e.id)
+        if isinstance(e, ast.Attribute) and isinstance(e.ctx, ast.Load):
+            if norm(e) == "self.stru":
+                return "self.stru", "LA"
+            if norm(e) == "self.anisotropy":
+                return "self.anisotropy", "D"
+            if isinstance(e.value, ast.Attribute) and norm(e.value) == "self.eau":
+                if not self.eau_ok:
+                    raise U("self.eau read before it is assigned")
+                if e.attr in XEAU:
+                    return "eau." + e.attr, XEAU[e.attr]
+                raise U("self.eau.%s" % e.attr)
+            a, t = self.expr(e.value)
+            if t == "A" and e.attr in XA_ATTRS:
+                return "%s.%s" % (a, e.attr), XA_ATTRS[e.attr]
+            raise U("attribute %s" % norm(e))
+        if isinstance(e, ast.Subscript) and isinstance(e.ctx, ast.Load):
+            l, tl = self.expr(e.value)
+            n, tn = self.expr(e.slice)
+            if tl in XELEM and tl != "LA" and tl != "LLA" and tn == "N":
+                t = self.fresh()
+                self.emit("let %s ← X.pyIdx %s (%s)" % (t, l, n))
+                self.monadic = True
+                return t, XELEM[tl]
+            raise U("subscript %s" % norm(e))
+        if isinstance(e, ast.BinOp) and isinstance(e.op, ast.Add):
+            a, ta = self.expr(e.left)
+            b, tb = self.expr(e.right)
+            if ta == tb == "N":
+                return "(%s + %s)" % (a, b), "N"
+            if ta == tb == "S":
+                return "(%s ++ %s)" % (a, b), "S"
+            raise U("+ %s" % norm(e))
+        if isinstance(e, ast.UnaryOp) and isinstance(e.op, ast.Not):
+            return "(!%s)" % self.cond(e.operand), "B"
+        if isinstance(e, ast.Compare) and len(e.ops) == 1:
+            op = e.ops[0]
+            a, ta = self.expr(e.left)
+            b, tb = self.expr(e.comparators[0])
+            if type(op) in XCMP and ta == tb == "N":
+                return "(decide (%s %s %s))" % (a, XCMP[type(op)], b), "B"
+            if isinstance(op, (ast.In, ast.NotIn)) and ta == "S" and tb == "D":
+                r = "(X.dictHas %s %s)" % (b, a)
+                return ("(!%s)" % r if isinstance(op, ast.NotIn) else r), "B"
+            raise U("comparison %s" % norm(e))
+        if isinstance(e, ast.Call) and isinstance(e.func, ast.Name) and len(e.args) == 1 and not e.keywords:
+            if e.func.id == "str":
+                a, t = self.expr(e.args[0])
+                if t == "N":
+                    return "(toString %s)" % a, "S"
+            if e.func.id == "Atom":
+                a, t = self.expr(e.args[0])
+                if t == "A":
+                    return a, "A"
+            raise U("call %s" % norm(e))
+        raise U("expression %s" % norm(e))
+
+    def cond(self, e):
+        a, t = self.expr(e)
+        if t == "B":
+            return a
+        raise U("truth value of %s : %s" % (norm(e), t))
+
+    # ---- statements of a loop body; returns the names (lean variables) assigned
+    def stmt(self, s, own):
+        """`own`: python names whose attributes may be assigned here"""
+        if isinstance(s, ast.Assign) and len(s.targets) == 1:
+            t = s.targets[0]
+            if isinstance(t, ast.Name):
+                if t.id in ("self",) + XBUILTINS + ("Atom", "ExpandAsymmetricUnit"):
+                    raise U("%s rebound" % t.id)
+                v, ty = self.expr(s.value)
+                if ty not in XLEAN:
+                    raise U("local of type %s: %s" % (ty, norm(s)))
+                if t.id in self.env and self.env[t.id] != ty:
+                    raise U("type of %s changes" % t.id)
+                self.emit("let v_%s : %s := %s" % (t.id, XLEAN[ty], v))
+                self.env[t.id] = ty
+                return ["v_" + t.id]
+            if isinstance(t, ast.Attribute) and isinstance(t.value, ast.Name) and t.value.id in own and self.env.get(t.value.id) == "A":
+                x = "v_" + t.value.id
+                v, ty = self.expr(s.value)
+                if t.attr in ("xyz", "label") and ty == XA_ATTRS[t.attr]:
+                    self.emit("let %s := { %s with %s := %s }" % (x, x, t.attr, v))
+                elif t.attr == "anisotropy" and ty == "B":
+                    self.emit("let %s := ops.setAnisotropy %s %s" % (x, v, x))
+                elif t.attr == "U" and ty == "T":
+                    self.emit("let %s := ops.setU %s %s" % (x, v, x))
+                else:
+                    raise U("assignment %s" % norm(s))
+                return [x]
+            if isinstance(t, ast.Subscript) and norm(t.value) == "self.anisotropy":
+                k, tk = self.expr(t.slice)
+                v, tv = self.expr(s.value)
+                if tk == "S" and tv == "B":
+                    self.emit("let self_anisotropy := X.dictSet self_anisotropy %s %s" % (k, v))
+                    return ["self_anisotropy"]
+            raise U("assignment %s" % norm(s))
+        if isinstance(s, ast.AugAssign) and isinstance(s.op, ast.Add):
+            t = s.target
+            if isinstance(t, ast.Attribute) and isinstance(t.value, ast.Name) and t.value.id in own and self.env.get(t.value.id) == "A" and t.attr == "label":
+                x = "v_" + t.value.id
+                v, ty = self.expr(s.value)
+                if ty == "S":
+                    self.emit("let %s := { %s with label := %s.label ++ %s }" % (x, x, x, v))
+                    return [x]
+            raise U("augmented assignment %s" % norm(s))
+        if isinstance(s, ast.If):
+            if s.orelse:
+                raise U("if with else")
+            c = self.cond(s.test)
+            b = self.sub(2)
+            names = []
+            for q in s.body:
+                for n in b.stmt(q, own):
+                    if n not in names:
+                        names.append(n)
+            for n in names:
+                if n.startswith("v_") and n[2:] not in self.env:
+                    raise U("%s first assigned in a branch" % n[2:])
+            if not names:
+                raise U("if without effect")
+            tup = names[0] if len(names) == 1 else "(" + ", ".join(names) + ")"
+            if b.monadic:
+                self.monadic = True
+                self.emit("let %s ← (if %s then do" % (tup, c))
+                self.lines += b.lines
+                self.emit("    pure %s" % tup)
+                self.emit("  else pure %s)" % tup)
+            else:
+                self.emit("let %s := (if %s then" % (tup, c))
+                self.lines += b.lines
+                self.emit("    %s" % tup)
+                self.emit("  else %s)" % tup)
+            return names
+        raise U("statement %s" % norm(s))
+
+    def dict_reads(self):
+        """inside the zip body the dictionary is the loop state"""
+        self.lines = [ln.replace("self.anisotropy", "self_anisotropy") for ln in self.lines]
+
+
+def is_append(s, acc=None):
+    ok = (isinstance(s, ast.Expr) and isinstance(s.value, ast.Call) and isinstance(s.value.func, ast.Attribute) and s.value.func.attr == "append"
+          and isinstance(s.value.func.value, ast.Name) and len(s.value.args) == 1 and not s.value.keywords and isinstance(s.value.args[0], ast.Name))
+    if ok and (acc is None or s.value.func.value.id == acc):
+        return s.value.func.value.id, s.value.args[0].id
+    return None
+
+
+def translate_expand(cls, tree):
+    """-> text of the four definitions"""
+    fn = pysrc.find_func(cls.body, "_expandAsymmetricUnit")
+    if fn is None:
+        raise U("method not found")
+    if [a.arg for a in fn.args.args] != ["self", "block"] or fn.args.vararg or fn.args.kwarg or fn.args.kwonlyargs or fn.decorator_list:
+        raise U("signature")
+    # names: Atom from the module import, the builtins nowhere rebound, ExpandAsymmetricUnit from the method's import
+    atom_imports = [n for n in tree.body if isinstance(n, ast.ImportFrom) and n.module == "diffpy.structure" and n.level == 0
+                    and any(a.name == "Atom" and a.asname is None for a in n.names)]
+    if len(atom_imports) != 1:
+        raise U("Atom is not imported from diffpy.structure at module level")
+    for n in ast.walk(tree):
+        bound = None
+        if isinstance(n, ast.Name) and isinstance(n.ctx, (ast.Store, ast.Del)):
+            bound = n.id
+        elif isinstance(n, (ast.FunctionDef, ast.ClassDef, ast.AsyncFunctionDef)):
+            bound = n.name
+        elif isinstance(n, ast.arg):
+            bound = n.arg
+        elif isinstance(n, ast.alias) and n not in atom_imports[0].names:
+            bound = (n.asname or n.name).split(".")[0]
+        elif isinstance(n, ast.ExceptHandler):
+            bound = n.name
+        if bound in XBUILTINS + ("Atom",):
+            raise U("%s rebound in the module" % bound)
+        if isinstance(n, (ast.Global, ast.Nonlocal)) and set(n.names) & set(XBUILTINS + ("Atom", "ExpandAsymmetricUnit")):
+            raise U("global statement")
+    body = strip_doc(fn.body)
+    if len(body) != 9:
+        raise U("the method has %d statements, the template 9" % len(body))
+    imp, s_pos, s_uij, s_eau, f_zip, s_new, f_enum, s_set, s_ret = body
+    if not (isinstance(imp, ast.ImportFrom) and imp.module == "diffpy.structure.symmetryutilities" and imp.level == 0
+            and [(a.name, a.asname) for a in imp.names] == [("ExpandAsymmetricUnit", None)]):
+        raise U("import statement of ExpandAsymmetricUnit")
+    for n in ast.walk(fn):
+        if isinstance(n, ast.Name) and isinstance(n.ctx, ast.Store) and n.id in ("ExpandAsymmetricUnit", "self", "block"):
+            raise U("%s rebound" % n.id)
+
+    out = []
+    # corepos = [a.xyz for a in self.stru]; coreUijs = [a.U for a in self.stru]
+    top = XBlk({}, False, 1)
+    for s, want in ((s_pos, "P"), (s_uij, "T")):
+        ok = (isinstance(s, ast.Assign) and len(s.targets) == 1 and isinstance(s.targets[0], ast.Name) and isinstance(s.value, ast.ListComp)
+              and len(s.value.generators) == 1 and not s.value.generators[0].ifs and not s.value.generators[0].is_async
+              and isinstance(s.value.generators[0].target, ast.Name) and norm(s.value.generators[0].iter) == "self.stru")
+        if not ok:
+            raise U("statement %s" % norm(s))
+        var = s.value.generators[0].target.id
+        b = XBlk({var: "A"}, False, 1)
+        v, ty = b.expr(s.value.elt)
+        if ty != want or b.lines:
+            raise U("comprehension %s" % norm(s))
+        top.emit("let v_%s : List %s := self.stru.map (fun v_%s => %s)" % (s.targets[0].id, want, var, v))
+        top.env[s.targets[0].id] = "L" + want
+    # self.eau = ExpandAsymmetricUnit(self.spacegroup, corepos, coreUijs, eps=self.eps)
+    ok = (isinstance(s_eau, ast.Assign) and len(s_eau.targets) == 1 and norm(s_eau.targets[0]) == "self.eau" and isinstance(s_eau.value, ast.Call)
+          and isinstance(s_eau.value.func, ast.Name) and s_eau.value.func.id == "ExpandAsymmetricUnit" and len(s_eau.value.args) == 3
+          and norm(s_eau.value.args[0]) == "self.spacegroup" and all(isinstance(a, ast.Name) for a in s_eau.value.args[1:])
+          and [(k.arg, norm(k.value)) for k in s_eau.value.keywords] == [("eps", "self.eps")])
+    if not ok:
+        raise U("statement %s" % norm(s_eau))
+    a1, a2 = s_eau.value.args[1].id, s_eau.value.args[2].id
+    if top.env.get(a1) != "LP" or top.env.get(a2) != "LT":
+        raise U("arguments of ExpandAsymmetricUnit: %s" % norm(s_eau))
+    top.emit("let eau ← mkEau v_%s v_%s" % (a1, a2))
+    top.eau_ok = True
+
+    # for ca, uisotropy in zip(self.stru, self.eau.Uisotropy): …
+    ok = (isinstance(f_zip, ast.For) and not f_zip.orelse and isinstance(f_zip.target, ast.Tuple) and len(f_zip.target.elts) == 2
+          and all(isinstance(x, ast.Name) for x in f_zip.target.elts) and norm(f_zip.iter) == "zip(self.stru, self.eau.Uisotropy)")
+    if not ok:
+        raise U("first loop %s" % norm(f_zip)[:80])
+    ca, ui = (x.id for x in f_zip.target.elts)
+    if ca == ui:
+        raise U("first loop targets")
+    zb = XBlk({ca: "A", ui: "B"}, True, 1)
+    for q in f_zip.body:
+        for n in zb.stmt(q, own=(ca,)):
+            if n not in ("v_" + ca, "self_anisotropy"):
+                raise U("first loop assigns %s" % n)
+    if zb.monadic:
+        raise U("first loop can raise")
+    zb.dict_reads()
+    out.append("/-- `_expandAsymmetricUnit`: body of `for %s, %s in zip(self.stru, self.eau.Uisotropy)`; the atom afterwards and `self.anisotropy` -/\n"
+               "def expandAsymmetricUnit_decide (ops : X.AtomOps P T O R) (self_anisotropy : X.Dict) (v_%s : X.PAtom P T O R) (v_%s : Bool) :\n"
+               "    X.PAtom P T O R × X.Dict :=\n%s\n  (v_%s, self_anisotropy)\n\n" % (ca, ui, ca, ui, "\n".join(zb.lines), ca))
+    top.emit("let r := X.forZipMut (expandAsymmetricUnit_decide ops) self.anisotropy self.stru eau.Uisotropy")
+    top.emit("let self : X.XState P T O R := { self with stru := r.1, anisotropy := r.2 }")
+
+    # newatoms = []
+    if not (isinstance(s_new, ast.Assign) and len(s_new.targets) == 1 and isinstance(s_new.targets[0], ast.Name)
+            and isinstance(s_new.value, ast.List) and not s_new.value.elts):
+        raise U("statement %s" % norm(s_new))
+    acc = s_new.targets[0].id
+    top.emit("let v_%s : List (List (X.PAtom P T O R)) := []" % acc)
+
+    # for i, ca in enumerate(self.stru): eca = []; for j in range(<N>): …; eca.append(a); newatoms.append(eca)
+    ok = (isinstance(f_enum, ast.For) and not f_enum.orelse and isinstance(f_enum.target, ast.Tuple) and len(f_enum.target.elts) == 2
+          and all(isinstance(x, ast.Name) for x in f_enum.target.elts) and norm(f_enum.iter) == "enumerate(self.stru)" and len(f_enum.body) == 3)
+    if not ok:
+        raise U("second loop %s" % norm(f_enum)[:80])
+    vi, vca = (x.id for x in f_enum.target.elts)
+    s_eca, f_in, s_app = f_enum.body
+    if not (isinstance(s_eca, ast.Assign) and len(s_eca.targets) == 1 and isinstance(s_eca.targets[0], ast.Name)
+            and isinstance(s_eca.value, ast.List) and not s_eca.value.elts):
+        raise U("statement %s" % norm(s_eca))
+    eca = s_eca.targets[0].id
+    if is_append(s_app, acc) != (acc, eca):
+        raise U("statement %s" % norm(s_app))
+    ok = (isinstance(f_in, ast.For) and not f_in.orelse and isinstance(f_in.target, ast.Name) and isinstance(f_in.iter, ast.Call)
+          and isinstance(f_in.iter.func, ast.Name) and f_in.iter.func.id == "range" and len(f_in.iter.args) == 1 and not f_in.iter.keywords
+          and len(f_in.body) >= 2)
+    if not ok:
+        raise U("inner loop %s" % norm(f_in)[:80])
+    vj = f_in.target.id
+    if len({vi, vca, vj, eca, acc}) != 5:
+        raise U("loop variables coincide")
+    last = is_append(f_in.body[-1], eca)
+    if last is None:
+        raise U("the inner loop does not end with %s.append" % eca)
+    ib = XBlk({vi: "N", vca: "A", vj: "N"}, True, 1)
+    own = set()
+    for q in f_in.body[:-1]:
+        # attributes may be assigned on atoms created in this body only
+        if isinstance(q, ast.Assign) and isinstance(q.targets[0], ast.Name) and isinstance(q.value, ast.Call) and isinstance(q.value.func, ast.Name) and q.value.func.id == "Atom":
+            own.add(q.targets[0].id)
+        for n in ib.stmt(q, own=tuple(own)):
+            if n in ("v_" + vi, "v_" + vca, "v_" + vj, "self_anisotropy"):
+                raise U("inner loop assigns %s" % n)
+    if ib.env.get(last[1]) != "A" or last[1] not in own:
+        raise U("%s.append(%s)" % (eca, last[1]))
+    out.append("/-- `_expandAsymmetricUnit`: body of `for %s in range(…)` up to `%s.append(%s)`: the atom appended -/\n"
+               "def expandAsymmetricUnit_image (ops : X.AtomOps P T O R) (eau : X.Eau P T) (v_%s : Nat) (v_%s : X.PAtom P T O R) (v_%s : Nat) :\n"
+               "    Except Exn (X.PAtom P T O R) := do\n%s\n  pure v_%s\n\n" % (vj, eca, last[1], vi, vca, vj, "\n".join(ib.lines), last[1]))
+    sb = XBlk({vi: "N", vca: "A"}, True, 1)
+    n, tn = sb.expr(f_in.iter.args[0])
+    if tn != "N":
+        raise U("range argument %s" % norm(f_in.iter))
+    out.append("/-- `_expandAsymmetricUnit`: body of `for %s, %s in enumerate(self.stru)` -/\n"
+               "def expandAsymmetricUnit_site (ops : X.AtomOps P T O R) (eau : X.Eau P T) (v_%s : List (List (X.PAtom P T O R))) (e : Nat × X.PAtom P T O R) :\n"
+               "    Except Exn (List (List (X.PAtom P T O R))) := do\n"
+               "  let v_%s := e.1\n  let v_%s := e.2\n  let v_%s : List (X.PAtom P T O R) := []\n%s\n"
+               "  let v_%s ← (List.range %s).foldlM (fun v_%s v_%s => do let a ← expandAsymmetricUnit_image ops eau v_%s v_%s v_%s; pure (v_%s ++ [a])) v_%s\n"
+               "  pure (v_%s ++ [v_%s])\n\n" % (vi, vca, acc, vi, vca, eca, "\n".join(sb.lines), eca, n, eca, vj, vi, vca, vj, eca, eca, acc, eca))
+    top.emit("let v_%s ← (X.enumerate self.stru).foldlM (expandAsymmetricUnit_site ops eau) v_%s" % (acc, acc))
+    # self.stru[:] = sum(newatoms, [])
+    if norm(s_set) != "self.stru[:] = sum(%s, [])" % acc:
+        raise U("statement %s" % norm(s_set))
+    top.emit("let self : X.XState P T O R := { self with stru := v_%s.flatten }" % acc)
+    if not (isinstance(s_ret, ast.Return) and s_ret.value is None):
+        raise U("statement %s" % norm(s_ret))
+    top.emit("pure self")
+    out.append("/-- `P_cif._expandAsymmetricUnit(self, block)`; `mkEau corepos coreUijs` = `ExpandAsymmetricUnit(self.spacegroup, corepos, coreUijs, eps=self.eps)` -/\n"
+               "def expandAsymmetricUnit (ops : X.AtomOps P T O R) (mkEau : List P → List T → Except Exn (X.Eau P T)) (self : X.XState P T O R) :\n"
+               "    Except Exn (X.XState P T O R) := do\n%s\n\n" % "\n".join(top.lines))
+    return "section\nvariable {P T O R : Type}\n\n" + "".join(out) + "end\n\n"
+
+
 def translate(report):
     path = os.path.join(pysrc.REPO, "src", "diffpy", "structure", "parsers", "p_cif.py")
     try:
@@ -448,7 +906,7 @@ def translate(report):
         raise U("class P_cif not found")
     rep = {"methods": {}, "untranslatable": {}}
     out = ["-- GENERATED by translate/src_cifsym.py from %s — do not edit\n" % os.path.relpath(path, pysrc.REPO),
-           "import DS.Model.CifSym\nnamespace DS.Src.CifSym\nopen DS.CifSym\n\n"]
+           "import DS.Model.CifSym\nnamespace DS.Src.CifSym\nopen DS.CifSym\n\n", X_PRELUDE]
     try:
         lines, tail = translate_method(cls, tree)
         out.append("/-- `P_cif._parse_space_group_symop_operation_xyz`, statement by statement -/\n"
@@ -459,8 +917,14 @@ def translate(report):
     except pysrc.Untranslatable as e:
         out.append("def parseSymops_untranslatable : String := %s\n\n" % lstr(str(e)))
         rep["untranslatable"]["parseSymops"] = str(e)
-    # _expandAsymmetricUnit and _parseCifBlock as normalised text
-    for name, lean in (("_expandAsymmetricUnit", "expandAsymmetricUnit_body"), ("_parseCifBlock", "parseCifBlock_body")):
+    try:
+        out.append(translate_expand(cls, tree))
+        rep["methods"]["expandAsymmetricUnit"] = "ok"
+    except pysrc.Untranslatable as e:
+        out.append("def expandAsymmetricUnit_untranslatable : String := %s\n\n" % lstr(str(e)))
+        rep["untranslatable"]["expandAsymmetricUnit"] = str(e)
+    # _parseCifBlock as normalised text
+    for name, lean in (("_parseCifBlock", "parseCifBlock_body"),):
         fn = pysrc.find_func(cls.body, name)
         if fn is None:
             out.append("def %s_untranslatable : String := \"method not found\"\n\n" % lean)
